@@ -7,7 +7,7 @@ from ..trace import split_units
 ID = "C19"
 LEVEL = "exploration"
 WORLDS = [(1, "plain")]
-BUDGET = {"quick": dict(cases=800), "thorough": dict(cases=15000)}
+BUDGET = {"quick": dict(cases=1600), "thorough": dict(cases=45000)}
 MIN_NONTRIVIAL = {"quick": 2000, "thorough": 30000}
 BLOB = (400, 1600)
 RULE = ("Hypothesis byte-backed generator: tables of 2-7 commands in 1-3 groups with 0-5 variables each (5 types x sizes incl. unsupported 3/8 x "
